@@ -340,8 +340,78 @@ func checkRow(cases map[string]string, nameAtom string, newline bool) string {
 	return strings.Join(problems, "; ")
 }
 
+// formatObligations: text that contains what the user wrote (names, branch strings, whole reports) is written as
+// data.  Handed to a printf-style function as the *format*, every '%' in it is read as a verb ("100%_done" comes out
+// as "100%!_(MISSING)done").  Every call of the fmt printf family in the module has a constant format.
+func formatObligations(w *World, l *obs) {
+	for _, p := range []*Prog{w.D(), w.W()} {
+		l.cfg = p.Cfg.Name
+		n, nBad := 0, 0
+		for _, fn := range p.ModFuncs {
+			if p.Cfg.Name == "W" && !wOnlyFunc(w, fn) {
+				continue
+			}
+			fn := fn
+			allInstrs(fn, func(in ssa.Instruction) {
+				c, ok := in.(ssa.CallInstruction)
+				if !ok {
+					return
+				}
+				f := c.Common().StaticCallee()
+				if f == nil || f.Pkg == nil || p.InModule(f) {
+					return
+				}
+				idx := -1
+				switch f.String() {
+				case "fmt.Printf", "fmt.Sprintf", "fmt.Errorf", "(*github.com/fatih/color.Color).Printf", "(*github.com/fatih/color.Color).Sprintf":
+					idx = 0
+				case "fmt.Fprintf", "fmt.Appendf", "(*github.com/fatih/color.Color).Fprintf":
+					idx = 1
+				default:
+					return
+				}
+				if f.Signature.Recv() != nil {
+					idx++
+				}
+				if idx >= len(c.Common().Args) {
+					return
+				}
+				n++
+				if _, isConst := stripConv(c.Common().Args[idx]).(*ssa.Const); isConst {
+					return
+				}
+				// a printf-style wrapper: the format is a parameter and every call site hands in a constant
+				if prm, isP := resolve(c.Common().Args[idx]).(*ssa.Parameter); isP && prm.Parent() == fn && fn.Parent() == nil {
+					pi := paramIndex(fn, prm)
+					callers := p.Callers(fn)
+					all := len(callers) > 0 && pi >= 0
+					for _, ci := range callers {
+						args := callArgs(ci.Common())
+						if pi >= len(args) {
+							all = false
+							continue
+						}
+						if _, isC := stripConv(args[pi]).(*ssa.Const); !isC {
+							all = false
+						}
+					}
+					if all {
+						return
+					}
+				}
+				nBad++
+				l.bad(p.FuncID(fn), "printf-style calls have a constant format", p.InstrPos(in), "the format of "+f.String()+" is the value "+describeValue(c.Common().Args[idx])+", not a constant: text built from node names or branch strings is interpreted as a format, so a '%' the user wrote is mangled (and the arguments are misread)", "format")
+			})
+		}
+		if nBad == 0 {
+			l.ok("-", "printf-style calls have a constant format", "-", fmt.Sprintf("%d calls of the printf family, each with a constant format string", n), n > 0, "format")
+		}
+	}
+}
+
 func ruleSIB3(w *World) []Ob {
 	l := &obs{rule: "SIB-3"}
+	formatObligations(w, l)
 	d := w.D()
 	l.cfg = "D"
 	// (a) row writers: every library function that writes a string built from a node's name to a writer
@@ -1462,6 +1532,52 @@ func ruleC01SEL(w *World) []Ob {
 				l.bad(name, "path assembly", p.Pos(fn.Pos()), "setPath("+got+"), expected setPath("+want[kind]+"): ancestors' names must be placed before the node's path", "path")
 			}
 		}
+		// the branch and the path of a node are formed nowhere else: a second assembly routine next to the modelled one
+		// (a rewritten recursion that some operations use while others keep the old one) would escape every term above
+		modelled := map[string]bool{}
+		for _, k := range []string{"", "Directly", "Indirectly", "Finally"} {
+			modelled["assembleBranch"+k] = true // the driver (ancestor walk, with a step possibly inlined) and its three steps
+		}
+		var strays []string
+		for _, fn := range libFuncs(p) {
+			if p.Cfg.Name == "W" && !wOnlyFunc(w, fn) {
+				continue
+			}
+			if recvTypeName(outermost(fn)) == "Node" {
+				continue // the setters themselves and clean()
+			}
+			if modelled[fname(outermost(fn))] && strings.Contains(recvTypeName(outermost(fn)), "rower") {
+				continue
+			}
+			fn := fn
+			allInstrs(fn, func(in ssa.Instruction) {
+				c, ok := in.(*ssa.Call)
+				if !ok || c.Common().StaticCallee() == nil || recvTypeName(c.Common().StaticCallee()) != "Node" {
+					return
+				}
+				switch fname(c.Common().StaticCallee()) {
+				case "setBranch", "setPath":
+					// emptying the cache is not assembly
+					if elems, isV := variadicElems(c.Common().Args[len(c.Common().Args)-1]); isV {
+						allEmpty := true
+						for _, e := range elems {
+							if sv, isS := constString(e); !isS || sv != "" {
+								allEmpty = false
+							}
+						}
+						if allEmpty {
+							return
+						}
+					}
+					strays = append(strays, p.FuncID(fn)+" ("+fname(c.Common().StaticCallee())+" at "+p.InstrPos(c)+")")
+				}
+			})
+		}
+		if len(strays) > 0 {
+			l.bad("(*gtree."+spec.recv+")", "branch and path are formed only by the modelled assembly functions", "-", "also formed in "+strings.Join(dedup(strays), ", ")+": a node's branch / path assembled by code these checks do not model — whatever it computes (and for which operations it is used) is not covered by the connector, ancestor-walk and path terms", "assembly-site")
+		} else {
+			l.ok("(*gtree."+spec.recv+")", "branch and path are formed only by the modelled assembly functions", "-", "setBranch / setPath with content are called from assembleBranchDirectly / Indirectly / Finally only", true, "assembly-site")
+		}
 	}
 	return l.list
 }
@@ -1727,6 +1843,44 @@ func ruleSIB5(w *World) []Ob {
 			why = errorExit(p, nc, errv, scan.Block())
 		}
 		add("a parse error ends the operation with that error", why, "err != nil side hands the same error over and never returns to the loop")
+		// (b') a row cut short by a failing reader is not judged as a row: bufio.ScanLines hands out the unterminated
+		// remainder ("  - " of "  - child") when the reader fails, and the parse error of that remainder would be
+		// returned in place of the reader's error.  Either the scanner was built with a split function of its own
+		// (the module's line scanner, which withholds that remainder), or the parse-error exit asks scanner.Err()
+		// first, or the scanner reads from memory (a block string), which cannot fail.
+		// (b'') a token limit given to the scanner admits at least the rows the default admits: with a limit below that
+		// (in the extreme 0, e.g. len(block) for an empty block) Scan fails with ErrTooLong before reading anything,
+		// and input that used to be fine — the empty document — becomes an error
+		{
+			whyBuf := ""
+			allInstrs2 := func(f *ssa.Function) {
+				allInstrs(f, func(in ssa.Instruction) {
+					c, ok := in.(*ssa.Call)
+					if !ok || calleeFullName(c.Common()) != "(*bufio.Scanner).Buffer" || len(c.Common().Args) != 3 {
+						return
+					}
+					iv := p.bounds(c.Common().Args[2], nil, 0)
+					iv = refineByDominatingGuards(p, c.Common().Args[2], c.Block(), iv, nil, 0)
+					for _, g := range guardsOf(c.Block()) {
+						cd, pol := flattenCond(g.Cond, g.Pol)
+						if bo, isB := cd.(*ssa.BinOp); isB {
+							iv = cmpFact(p, c.Common().Args[2], bo, pol, iv)
+						}
+					}
+					if iv.lo > negInf/2 && iv.lo < 1 {
+						whyBuf = fmt.Sprintf("the scanner's token limit set at %s can be as low as %d: bufio.Scanner then reports ErrTooLong before it has read a byte, so an empty document (or an empty block) is an error instead of empty output and nil", p.InstrPos(c), iv.lo)
+					}
+				})
+			}
+			allInstrs2(fn)
+			// the function that makes the scanner
+			if sc, ok := stripConv(resolve(scan.Common().Args[0])).(*ssa.Call); ok && sc.Common().StaticCallee() != nil && p.InModule(sc.Common().StaticCallee()) {
+				allInstrs2(sc.Common().StaticCallee())
+			}
+			add("the scanner's token limit admits every row the default admits", whyBuf, "no Scanner.Buffer call, or its limit is at least 1 on every path")
+		}
+		why = truncatedRowGuard(p, fn, scan, gen)
+		add("a row cut short by a failing reader is not parsed", why, "the scanner reads from memory, or is built with a split function of its own, or scanner.Err() is consulted before the parse error is returned")
 		// (c) nil node ⇒ next line
 		why = ""
 		if node == nil {
@@ -2280,6 +2434,124 @@ type sib5Delegate struct {
 	attach    bool   // dfs(stack field, node) with its failure reported
 	why       string // a delegate's error does not end the operation
 	rootFlag  ssa.Value // a bool result of the delegate call that is true exactly when the node is a root
+}
+
+// truncatedRowGuard: see (b') in ruleSIB5.  Returns "" when the obligation holds.
+func truncatedRowGuard(p *Prog, fn *ssa.Function, scan, gen *ssa.Call) string {
+	scv := scan.Common().Args[0]
+	// how was this scanner made?
+	var makers []ssa.Value
+	if ld, isL := isLoad(stripConv(scv)); isL {
+		switch a := ld.(type) {
+		case *ssa.FieldAddr:
+			// every store to that field in the module
+			for _, g := range p.ModFuncs {
+				allInstrs(g, func(in ssa.Instruction) {
+					if st, ok := in.(*ssa.Store); ok {
+						if f2, ok := st.Addr.(*ssa.FieldAddr); ok && f2.Field == a.Field && types.Identical(f2.X.Type(), a.X.Type()) {
+							makers = append(makers, st.Val)
+						}
+					}
+				})
+			}
+		default:
+			if r := resolve(scv); r != scv {
+				makers = append(makers, r)
+			}
+		}
+	} else {
+		makers = append(makers, resolve(scv))
+	}
+	if len(makers) == 0 {
+		return "the construction of the row scanner could not be found"
+	}
+	inMemory := func(v ssa.Value) bool {
+		c, ok := stripConv(resolve(v)).(*ssa.Call)
+		if !ok {
+			return false
+		}
+		switch calleeFullName(c.Common()) {
+		case "strings.NewReader", "bytes.NewReader", "bytes.NewBufferString", "bytes.NewBuffer":
+			return true
+		}
+		return false
+	}
+	var ownSplit func(f *ssa.Function, depth int) bool
+	ownSplit = func(f *ssa.Function, depth int) bool {
+		if f == nil || !p.InModule(f) || len(f.Blocks) == 0 || depth > 2 {
+			return false
+		}
+		found := false
+		allInstrs(f, func(in ssa.Instruction) {
+			if c, ok := in.(*ssa.Call); ok {
+				if calleeFullName(c.Common()) == "(*bufio.Scanner).Split" {
+					// not merely bufio.ScanLines again
+					if fv, isF := resolve(c.Common().Args[1]).(*ssa.Function); !isF || fv.String() != "bufio.ScanLines" {
+						found = true
+					}
+				}
+				if g := c.Common().StaticCallee(); g != nil && p.InModule(g) && ownSplit(g, depth+1) {
+					found = true
+				}
+			}
+		})
+		return found
+	}
+	// a module helper that makes the scanner over an in-memory reader (newBlockScanner(block))
+	memHelper := func(f *ssa.Function) bool {
+		if f == nil || !p.InModule(f) || len(f.Blocks) == 0 {
+			return false
+		}
+		nMem, nOther := 0, 0
+		allInstrs(f, func(in ssa.Instruction) {
+			if c, ok := in.(*ssa.Call); ok && calleeFullName(c.Common()) == "bufio.NewScanner" && len(c.Common().Args) == 1 {
+				if inMemory(c.Common().Args[0]) {
+					nMem++
+				} else {
+					nOther++
+				}
+			}
+		})
+		return nMem > 0 && nOther == 0
+	}
+	allOK := true
+	for _, m := range makers {
+		c, ok := stripConv(resolve(m)).(*ssa.Call)
+		if !ok {
+			allOK = false
+			continue
+		}
+		switch {
+		case calleeFullName(c.Common()) == "bufio.NewScanner" && len(c.Common().Args) == 1 && inMemory(c.Common().Args[0]):
+		case memHelper(c.Common().StaticCallee()):
+		case c.Common().StaticCallee() != nil && ownSplit(c.Common().StaticCallee(), 0):
+		default:
+			allOK = false
+		}
+	}
+	if allOK {
+		return ""
+	}
+	// the parse-error exit consults scanner.Err() first
+	errv := siblingExtract(gen, 1)
+	if errv != nil {
+		consulted := false
+		allInstrs(fn, func(in ssa.Instruction) {
+			c, ok := in.(*ssa.Call)
+			if !ok || calleeFullName(c.Common()) != "(*bufio.Scanner).Err" || valueKey(c.Common().Args[0]) != valueKey(scv) {
+				return
+			}
+			for _, g := range guardsOf(c.Block()) {
+				if tv, nonNil, ok := nilTest(g.Cond, g.Pol); ok && nonNil && (tv == errv || sameVar(tv, errv)) {
+					consulted = true
+				}
+			}
+		})
+		if consulted {
+			return ""
+		}
+	}
+	return "the rows come from bufio.NewScanner over the caller's reader with the default line splitting, and the parse error of a row is returned without asking scanner.Err(): when the reader fails in the middle of a row (\"  - \" of \"  - child\") the remainder is parsed, and the format error (\"empty text\") is returned instead of the reader's error"
 }
 
 // sib5Delegates examines the module methods that the line loop hands the current node to and that keep the open stack
